@@ -3,6 +3,7 @@ package rules
 import (
 	"fmt"
 	"go/types"
+	"regexp"
 	"strings"
 
 	"verif/wscheck/internal/fold"
@@ -309,6 +310,7 @@ func serverUpgraderRules(c *Ctx, prop string) {
 	c.R.AddCells(len(all))
 	c.R.Paths += len(all)
 	var problems []string
+	var stale []string
 	successes := 0
 	for _, r := range all {
 		p := r.p
@@ -316,6 +318,7 @@ func serverUpgraderRules(c *Ctx, prop string) {
 			problems = append(problems, "undecided: "+p.Abort+panicNote(p))
 			continue
 		}
+		stale = append(stale, staleUses(p, p.Ret)...)
 		script := srvScripts[r.script]
 		want := srvReference(c, p, script, errs)
 		ret, _ := p.Ret.(fold.Tuple)
@@ -445,6 +448,9 @@ func serverUpgraderRules(c *Ctx, prop string) {
 	if successes == 0 {
 		problems = append(problems, "undecided: no scripted request reaches the success path")
 	}
+	lrule := prop + ".handshake-buffer-lifetime"
+	c.R.Rule(lrule, 1, "no slice of a handshake line is used after a later line was read into the same pooled buffer, and none is returned")
+	c.verdict(lrule, lrule+"/Upgrader.Upgrade", c.P.FuncPos(f), uniq(stale), fmt.Sprintf("%d paths: every view of a line dies before the next readLine", len(all)))
 	c.R.Sample(map[string]any{"rule": rule, "scripts": len(srvScripts), "paths": len(all), "success_paths": successes})
 	c.verdict(rule, rule+"/Upgrader.Upgrade", c.P.FuncPos(f), uniq(problems), fmt.Sprintf("%d paths over %d scripted requests; %d reach 101", len(all), len(srvScripts), successes))
 }
@@ -614,4 +620,74 @@ func srvReference(c *Ctx, p *fold.Path, script srvScript, errs map[string]string
 		return srvOutcome{"error", err}
 	}
 	return srvOutcome{"upgrade", ""}
+}
+
+var lineNameRe = regexp.MustCompile(`^(reqline|statusline|uri|reason|line:\d+|v\d+)(\[.*\])?$`)
+
+// staleUses scans a handshake path for values that alias a line buffer and are
+// used after a later readLine (which recycles the bufio buffer), or returned.
+func staleUses(p *fold.Path, ret fold.Val) []string {
+	var out []string
+	lines := 0
+	alias := func(v fold.Val) (string, int, bool) {
+		s, ok := v.(fold.SymSeq)
+		if !ok {
+			return "", 0, false
+		}
+		mm := lineNameRe.FindStringSubmatch(s.Name)
+		if mm == nil {
+			return "", 0, false
+		}
+		// which readLine produced it
+		switch {
+		case mm[1] == "reqline" || mm[1] == "statusline" || mm[1] == "uri" || mm[1] == "reason":
+			return s.Name, 1, true
+		default:
+			var idx int
+			if strings.HasPrefix(mm[1], "line:") {
+				fmt.Sscanf(mm[1], "line:%d", &idx)
+			} else {
+				fmt.Sscanf(mm[1], "v%d", &idx)
+			}
+			return s.Name, idx + 2, true
+		}
+	}
+	var walk func(v fold.Val, f func(fold.Val))
+	walk = func(v fold.Val, f func(fold.Val)) {
+		f(v)
+		switch x := v.(type) {
+		case fold.Struct:
+			for _, e := range x.F {
+				walk(e, f)
+			}
+		case fold.Tuple:
+			for _, e := range x {
+				walk(e, f)
+			}
+		case fold.Iface:
+			walk(x.V, f)
+		}
+	}
+	for _, e := range p.Effects {
+		if e.Kind == "call" && e.Name == "readLine" {
+			lines++
+			continue
+		}
+		if e.Kind != "call" {
+			continue
+		}
+		for _, a := range e.Args {
+			walk(a, func(v fold.Val) {
+				if name, born, ok := alias(v); ok && born < lines {
+					out = append(out, fmt.Sprintf("%s (read by line %d) is passed to %s after line %d was read into the same buffer", name, born, e.Name, lines))
+				}
+			})
+		}
+	}
+	walk(ret, func(v fold.Val) {
+		if name, _, ok := alias(v); ok {
+			out = append(out, name+" (a view of the pooled read buffer) is returned to the caller")
+		}
+	})
+	return out
 }
